@@ -73,6 +73,24 @@ def evaluate(chk, pid, items):
     return mism
 
 
+def on_polynomial(ys, t):
+    """Do the points (1, ys[0]), (2, ys[1]), ... lie on a polynomial of degree < t?  (exact, over the rationals)"""
+    from fractions import Fraction
+    xs = list(range(1, len(ys) + 1))
+    base = xs[:t]
+    for k in range(t, len(ys)):
+        v = Fraction(0)
+        for i, xi in enumerate(base):
+            term = Fraction(ys[i])
+            for xj in base:
+                if xj != xi:
+                    term *= Fraction(xs[k] - xj, xi - xj)
+            v += term
+        if v != ys[k]:
+            return False
+    return True
+
+
 def backend_monitors(chk, hit, scenarios):
     """C05 / C01(3) evaluated directly on what the real key generators returned."""
     for sc in scenarios:
@@ -98,7 +116,10 @@ def backend_monitors(chk, hit, scenarios):
             hit("dkg_honest_fails", sc, "all parties honest and every message delivered, yet KeyGen did not return Ok everywhere: " + tag)
         if sc["deviation"] in ("wrongreveal", "wrongcommit", "commit-lastbyte", "commit-firstbyte") and oks:
             hit("dkg_mismatch_accepted", sc, "a revealed key that does not match its commitment was accepted: " + tag)
-        if sc["deviation"] in ("offpoly",) and sc["t"] < sc["n"] and oks:
+        if sc["deviation"] in ("offpoly",) and oks and not on_polynomial(
+                [1 if i in sc["victims"] else 0 for i in range(1, sc["n"] + 1)], sc["t"]):
+            # the victims' keys are moved by g^1: the key vector stays on a polynomial of degree < t exactly when the 0/1
+            # pattern of the victims does (e.g. victims {1,4} of 4 parties with t = 3 lie on (x-2)(x-3)/2: accepted, rightly)
             hit("dkg_offpoly_accepted", sc, "keys not on one polynomial were accepted: " + tag)
 
 
